@@ -363,6 +363,23 @@ func (p *ProdGen) FailingProducer(kind string) []sdk.Msg {
 		d.BurnToken = dn
 		d.Amount = mkInt(big.NewInt(int64(1 + r.Intn(600))))
 		return msgs1(d)
+	case "deposit-odd-messenger":
+		// the destination's registered messenger is not 32 bytes long (only a genesis file can say so)
+		ds := sortedDomains(p.E.M.Messengers)
+		for _, i := range r.Perm(len(ds)) {
+			d := ds[i]
+			if a := p.E.M.Messengers[d]; len(a) != 32 && len(a) > 0 {
+				switch x := p.ValidDeposit(r.Intn(2) == 0, 0).(type) {
+				case *ct.MsgDepositForBurn:
+					x.DestinationDomain = d
+					return msgs1(x)
+				case *ct.MsgDepositForBurnWithCaller:
+					x.DestinationDomain = d
+					return msgs1(x)
+				}
+			}
+		}
+		return nil
 	case "deposit-zero-amount":
 		d := p.ValidDeposit(false, 0).(*ct.MsgDepositForBurn)
 		d.Amount = mkInt(big.NewInt(0))
@@ -392,7 +409,7 @@ func (p *ProdGen) FailingProducer(kind string) []sdk.Msg {
 	return nil
 }
 
-var FailingProducerKinds = []string{"zero-recipient", "oversize-body", "bad-caller-length", "deposit-bad-caller-length", "deposit-lookalike-denom", "deposit-zero-amount", "deposit-over-balance", "deposit-no-messenger", "later-message-fails", "deposit-then-failing-message"}
+var FailingProducerKinds = []string{"zero-recipient", "oversize-body", "bad-caller-length", "deposit-bad-caller-length", "deposit-lookalike-denom", "deposit-odd-messenger", "deposit-zero-amount", "deposit-over-balance", "deposit-no-messenger", "later-message-fails", "deposit-then-failing-message"}
 
 // Run drives n steps.
 func (p *ProdGen) Run(n int, adminEvery int) {
